@@ -15,8 +15,9 @@ from .thir import strip_generics, line_of
 
 
 class Unsupported(Exception):
-    def __init__(self, why, e=None):
+    def __init__(self, why, e=None, tag=None):
         self.why = why
+        self.tag = tag or ('array-op' if ('reviewed' in why and 'surface' in why) or 'Zip operand' in why or 'lane array' in why else 'other')
         self.where = line_of(e) if e is not None else ''
         super().__init__("%s at %s" % (why, self.where))
 
@@ -482,6 +483,23 @@ class Interp:
             raise Unsupported("pow with a non-literal exponent", e)
         if tname == 'num_traits::cast':
             return NotImplemented
+        if tname in ('num_traits::Zero::zero', 'num_traits::identities::Zero::zero', 'num_traits::zero', 'num_traits::identities::zero') and not args:
+            return Num(0)
+        if tname in ('num_traits::One::one', 'num_traits::identities::One::one', 'num_traits::one', 'num_traits::identities::one') and not args:
+            return Num(1)
+        if tname in ('num_traits::Float::mul_add', 'num_traits::MulAdd::mul_add', 'std::f64::<impl f64>::mul_add', 'std::f32::<impl f32>::mul_add') and len(args) == 3:
+            a, b, c = (deref_all(x) for x in args)
+            if all(isinstance(z, Num) for z in (a, b, c)):
+                return Num(a.r * b.r + c.r)
+        if tname in ('num_traits::Float::recip', 'num_traits::Inv::inv') and len(args) == 1 and isinstance(deref_all(args[0]), Num):
+            return Num(Rat.const(1) / deref_all(args[0]).r)
+        if tname in ('num_traits::Float::powi', 'num_traits::pow', 'num_traits::pow::pow') and len(args) == 2:
+            a, b = deref_all(args[0]), deref_all(args[1])
+            if isinstance(a, Num) and isinstance(b, Num) and b.const() is not None and b.const().denominator == 1:
+                return Num(a.r ** int(b.const()))
+        if tname in ('num_traits::NumCast::from', 'num_traits::FromPrimitive::from_f64', 'num_traits::FromPrimitive::from_usize',
+                     'num_traits::FromPrimitive::from_u32', 'num_traits::FromPrimitive::from_i32') and len(args) == 1 and isinstance(deref_all(args[0]), Num):
+            return SOME(deref_all(args[0]))
         if tname in ('std::clone::Clone::clone', 'std::borrow::ToOwned::to_owned') and not cal.get('resolved', '').startswith('<interp') and not (cal.get('resolved') or '').startswith('interp'):
             a = deref_all(args[0])
             if isinstance(a, (Num, B, Unit)):
